@@ -11,7 +11,7 @@ RULE = ("_get_slice: every multiset of 1..4 timestamps on the even grid {0,2,..,
         "get / get_slice / TsGroup.get: oracle 'exactly start <= t <= end', support unchanged, nearest sample, units s/ms/us; "
         "to_trial_tensor / trial_count / build_tensor / warp_tensor: trial sets with unequal durations and trials holding "
         "no sample or no bin, align start/end, padding, Tsd/TsdFrame/Ts/TsGroup. distinct = distinct (timestamps, window, mode)")
-PROVED = ("get_window: restrict-mode slice = exactly the positions with start <= t <= end (sorted t, any length, duplicates); "
+PROVED = ("C08Get: get_eq_filter (the WHOLE method x.get(start, end) on a well-formed series: exactly the samples with start <= t <= end, in order, nothing more lost by the constructor it goes through), get_support (support unchanged, or the empty object); get_window: restrict-mode slice = exactly the positions with start <= t <= end (sorted t, any length, duplicates); "
           "get_rejects_inverted; get_nearest: x.get(start) returns slice (i, i+1) of a sample at least as close to start as every other "
           "(any non-empty sorted series, start before / inside / after the data, ties to the later sample, Python's wrap-around t[-1] read); "
           "trial_rows / trialRow_mem: to_trial_tensor has one row per trial, all equally long, sample k in row i iff start_i <= t[k] <= end_i, "
@@ -20,6 +20,7 @@ PROVED = ("get_window: restrict-mode slice = exactly the positions with start <=
           "trial i, in order, and the preallocated width always suffices (canonical trials, any bin size, both alignments)")
 NOT_PROVED = ("before_t / after_t / closest_t with end (model correspondence); warp == count: oracle")
 ASSUMPTIONS = ["series non-empty and sorted (C04)"]
+EXTRA_MODULES = ["C08Get"]
 MODES = ["before_t", "after_t", "closest_t", "restrict"]
 
 
